@@ -127,13 +127,16 @@ def expected(line, impl):
         # positions near INT_MAX in a buffer of `limit` bytes: code and position only
         T, n, limit, pos = t[1], int(t[2]), int(t[3]), int(t[4])
         need = pos + n * TYPES[T][0]
-        known = n * TYPES[T][0] >= 2 ** 31      # F-C16d: the int product of sc_MPI_Pack_size
-        if need > limit:
+        if need > limit:            # includes count * size >= 2^31 (F-C16d, repaired): refused, position unchanged
             return ["E", str(pos)], known
         return ["0", str(need)], known
     if c == "packsize":
         T, n = t[1], int(t[2])
         want = n * TYPES[T][0]
+        if want >= 2 ** 31:
+            # not representable in an int: MPI's own MPI_Pack_size returns a wrapped number with MPI_SUCCESS (not judged);
+            # the emulation must never do that: it refuses (the value left in *size is not judged)
+            return ([None, None] if impl == "mpi" else ["E", None]), False
         if impl == "mpi":       # MPI_Pack_size is an upper bound
             return ["0", lambda g: g.isdigit() and int(g) >= want], False
         return ["0", str(want)], False
@@ -263,8 +266,10 @@ def gen_cases(ctx):
                         cases.append("pack %s %d %d %d %s" % (T, n, outsize, pos, rnd_hex(rng, n * ext)))
                     for insize in sorted(set(x for x in (need - 1, need, need + 3, pos) if x >= pos)):
                         cases.append("unpack %s %d %d %s %d" % (T, n, pos, rnd_hex(rng, insize), n * ext + rng.choice([0, 2, ext])))
-            for n in (0, 1, 2, 7, 1000):
-                cases.append("packsize %s %d" % (T, n))
+            lim = (2 ** 31 - 1) // size       # the largest count whose byte count is representable
+            for n in (0, 1, 2, 7, 1000, lim, lim + 1, 2 ** 31 - 1, rng.randrange(lim // 2, lim + 1), rng.randrange(min(lim + 1, 2 ** 31 - 1), 2 ** 31)):
+                if n < 2 ** 31:             # the count is an int
+                    cases.append("packsize %s %d" % (T, n))
             cases.append("typesize %s" % T)
             cases.append("sizeof %s" % T)
     cases.append("barrier")
@@ -298,7 +303,9 @@ def gen_big(ctx):
            "packbig INT 2 1610612736 1610612732", "packbig DOUBLE 0 %d %d" % (M, M),
            "packbig BYTE 1 100 200", "unpackbig INT 3 64 %d" % M,                             # position behind the buffer: refused
            "packbig LONG 1 %d %d" % (M, M - 3), "unpackbig LONG_DOUBLE 2 %d %d" % (M - 5, M - 20),   # sums far above 2^31 - 1
-           "packbig LONG_DOUBLE 268435456 100 0", "unpackbig LONG_DOUBLE 134217728 %d 0" % M]  # count * size = 2^32, 2^31: F-C16d
+           "packbig LONG_DOUBLE 268435456 100 0", "unpackbig LONG_DOUBLE 134217728 %d 0" % M,  # count * size = 2^32, 2^31 (F-C16d): refused
+           "unpackbig LONG_DOUBLE 268435456 100 0", "packbig LONG_DOUBLE 134217728 %d 0" % M, "packbig INT 536870912 %d 7" % M,
+           "packbig LONG_DOUBLE 134217727 100 0"]                                             # 2^31 - 16 bytes: representable, does not fit
     for _ in range(2 if ctx.quick else 12):
         T = rng.choice(["BYTE", "SHORT", "INT", "LONG", "LONG_DOUBLE"])
         limit = M - rng.randrange(0, 40)
@@ -373,9 +380,7 @@ def run(ctx):
             big_serial.append(None)
             _, known = expected(line, "serial")
             what = "signed integer overflow" if "signed integer overflow" in errb else "exit %s" % rcb
-            if known:
-                ctx.violation("pack-size-overflow", "`%s`: serial driver stopped (%s): %s" % (line, what, errb[-600:]), dict(case=line, stderr=errb[-2000:]))
-            else:
+            if True:
                 ctx.violation("crash:" + line[:60], "serial driver stopped (%s) at `%s`: %s" % (what, line, errb[-1500:]), dict(case=line, stderr=errb[-3000:]))
     big_model, big_ompi = [], []
     if model:
@@ -396,7 +401,7 @@ def run(ctx):
         if so is not None:
             bad, _ = judge(line, so, "serial")
             if bad:
-                ctx.violation("pack-size-overflow" if known else "c16:" + line[:70],
+                ctx.violation("c16:" + line[:70],
                               "`%s`: serial emulation printed `%s`: %s" % (line, so, "; ".join(bad[:3])), dict(case=line, serial=so))
             if big_model and not known and so.replace(" GUARD", "") != big_model[k]:
                 ctx.tie_broken("model/implementation correspondence", "`%s`: serial libsc prints `%s`, model prints `%s`" % (line, so, big_model[k]))
@@ -404,7 +409,7 @@ def run(ctx):
             badm, _ = judge(line, big_ompi[k], "mpi")
             if badm:
                 ctx.tie_broken("one-rank specification validated against OpenMPI", "`%s`: OpenMPI prints `%s`: %s" % (line, big_ompi[k], "; ".join(badm[:3])))
-    ctx.notes["positions_near_INT_MAX"] = dict(cases=len(big), in_domain_of_F_C16d=nbig_known, serial_stopped=sum(1 for x in big_serial if x is None))
+    ctx.notes["positions_near_INT_MAX"] = dict(cases=len(big), byte_count_not_representable=sum(1 for l in big if int(l.split()[2]) * TYPES[l.split()[1]][0] >= 2 ** 31), serial_stopped=sum(1 for x in big_serial if x is None))
 
     dist = {}
     nbad = nknown = ndis = nspec = nraw = 0
@@ -450,7 +455,7 @@ def run(ctx):
                        "position + count*size - 1, exact, + 1 relative to the buffer size; pack/type sizes; communicator, group and "
                        "completion calls with 0..17 null requests with and without status arrays; error classes, strings and stored texts of the 21 "
                        "codes, 14 numbers that are no code (13999, 14001, 14021, INT_MIN/MAX, random); Pack/Unpack with positions near INT_MAX "
-                       "(exact fit at INT_MAX, sum = INT_MAX > limit, sum >= 2^31 (regression of F-C16c), position behind the buffer, count * size >= 2^31 (F-C16d); one process each); a case is non-trivial unless it is barrier/wtime/group; distinct = distinct case lines")
+                       "(exact fit at INT_MAX, sum = INT_MAX > limit, sum >= 2^31 (regression of F-C16c), position behind the buffer, count * size >= 2^31 (regression of F-C16d: refused); one process each); Pack_size at the largest representable count, one above and at INT_MAX; a case is non-trivial unless it is barrier/wtime/group; distinct = distinct case lines")
     ctx.cov["exhaustive"] = False
     ctx.notes["case_distribution"] = dist
     ctx.notes["oracle_violations"] = nbad
